@@ -116,13 +116,16 @@ def default_sample(H):
             "deliveries": sum(1 for e in H["events"] if e["op"] == "delivery")}
 
 
-def replay_group(witness):
+def replay_group(witness, default_judge=None):
     from vf.simharness import quiet_logging, setup_codec
     setup_codec({}, witness.get("pure_python"))
     repoimport.use_repo()
     from vf import group_judges, group_sim
     quiet_logging()
     H = group_sim.run_history(witness["params"])
-    V, _st = getattr(group_judges, witness["judge"])(H)
-    return {"evaluations": 1, "violations": [{"mechanism": m, "what": w, "witness": {"params": witness["params"], "detail": d}}
-                                              for m, w, d in V]}
+    jn = witness.get("judge") or default_judge
+    V, _st = getattr(group_judges, jn)(H)
+    return {"evaluations": 1, "violations": [{"mechanism": m, "what": w,
+                                              "witness": {"params": witness["params"], "judge": jn,
+                                                          "pure_python": bool(witness.get("pure_python")), "detail": d}}
+                                             for m, w, d in V]}
